@@ -482,7 +482,10 @@ pub fn run_property(engine: &'static dyn Engine, tier: Tier) -> i32 {
             distinct.insert(r.stats.fingerprint);
         }
         let vs: Vec<String> = r.violations.iter().map(|v| v.signature.clone()).collect();
-        log_hash = rng::mix(log_hash, rng::mix(*i, rng::mix(r.stats.fingerprint, rng::hash_str(&vs.join("|")))));
+        log_hash = rng::mix(
+            log_hash,
+            rng::mix(*i, rng::mix(rng::mix(r.stats.fingerprint, rng::mix(r.stats.steps, r.stats.switches)), rng::hash_str(&vs.join("|")))),
+        );
         for v in &r.violations {
             let e = by_sig.entry(v.signature.clone()).or_insert((*i, v.clone(), 0));
             e.2 += 1;
@@ -632,11 +635,13 @@ pub fn run_property(engine: &'static dyn Engine, tier: Tier) -> i32 {
         },
         "assumptions": engine.assumptions(),
     });
-    let evdir = paths.root.join("evidence");
-    let _ = std::fs::create_dir_all(&evdir);
-    if let Err(e) = std::fs::write(evdir.join(format!("{id}.json")), serde_json::to_string_pretty(&evidence).unwrap()) {
-        eprintln!("harness error: write evidence: {e}");
-        return 2;
+    if std::env::var("VERIF_NO_EVIDENCE").is_err() {
+        let evdir = paths.root.join("evidence");
+        let _ = std::fs::create_dir_all(&evdir);
+        if let Err(e) = std::fs::write(evdir.join(format!("{id}.json")), serde_json::to_string_pretty(&evidence).unwrap()) {
+            eprintln!("harness error: write evidence: {e}");
+            return 2;
+        }
     }
     let _ = std::fs::remove_dir_all(&paths.scratch);
     println!("wall_s={wall:.1} violations={violation_lines} known_findings={}", known_seen.len());
